@@ -38,6 +38,8 @@ def shards(tier, seed):
         out.append({"kind": "cfg", "seed": s, "n": 100 if q else 2500})
     for s in shard_seeds(seed, 3, "C06d"):
         out.append({"kind": "special", "seed": s, "n": 80 if q else 2000, "hostile": 0.2})
+    for s in shard_seeds(seed, 2, "C06e"):
+        out.append({"kind": "forced_fallback", "seed": s, "n": 60 if q else 1500})
     return out
 
 
